@@ -7,6 +7,7 @@ import (
 	"fmt"
 	"go/ast"
 	"go/parser"
+	"go/scanner"
 	"go/token"
 	"os"
 	"path/filepath"
@@ -19,7 +20,7 @@ import (
 //   surface_Cxx : List (String × String)      ("file:Func", fingerprint), sorted
 // The fingerprint is the SHA-256 (first 16 hex digits) of the function's declaration printed from its AST without comments, with
 // every identifier declared inside the function (receiver, parameters, results, locals, labels) replaced by its index in order of
-// first appearance, and with logging statements dropped: renaming a local, reformatting, commenting or logging does not change it;
+// first appearance, layout-dependent punctuation removed, and with logging statements dropped: renaming a local, reformatting, commenting or logging does not change it;
 // a changed operator, constant, callee, field, guard, statement order or signature does.  A hand-written model is only known to
 // correspond to the text it was written from: when a fingerprint moves, the obligation `fact_Cxx_surface_fingerprints` breaks and
 // the check goes looking for a failing input.
@@ -137,7 +138,31 @@ func nodeText(fs *token.FileSet, n any) string {
 	fset = fs
 	_ = printerFprint(&sb, n)
 	fset = old
-	return strings.Join(strings.Fields(sb.String()), " ")
+	// layout-independent: the printed text is re-scanned into tokens; go/printer's trailing comma in a multi-line literal / call
+	// and the semicolons (explicit or inserted at line ends) are dropped
+	var sc scanner.Scanner
+	src := []byte(sb.String())
+	f2 := token.NewFileSet()
+	sc.Init(f2.AddFile("", f2.Base(), len(src)), src, nil, 0)
+	var toks []string
+	for {
+		_, tok, lit := sc.Scan()
+		if tok == token.EOF {
+			break
+		}
+		if tok == token.SEMICOLON {
+			continue
+		}
+		if (tok == token.RPAREN || tok == token.RBRACE || tok == token.RBRACK) && len(toks) > 0 && toks[len(toks)-1] == "," {
+			toks = toks[:len(toks)-1]
+		}
+		if lit != "" {
+			toks = append(toks, lit)
+		} else {
+			toks = append(toks, tok.String())
+		}
+	}
+	return strings.Join(toks, " ")
 }
 
 func isLogging(fs *token.FileSet, s ast.Stmt) bool {
